@@ -6,6 +6,7 @@ import (
 	"runtime/debug"
 	"sort"
 	"strings"
+	"sync"
 	"time"
 
 	txfile "github.com/elastic/go-txfile"
@@ -31,6 +32,10 @@ type RunOpts struct {
 	Disk             *simdisk.Disk
 	// Known findings excluded by construction (see known_findings.jsonl).
 	Exclude map[string]bool
+	// Concurrent: other goroutines run transactions on the same file; the
+	// unsynchronised snapshot hook is only used while this goroutine holds a
+	// write transaction.
+	Concurrent bool
 	// Faults: an I/O fault plan is armed on the disk; Commit may fail for I/O
 	// reasons and the C08 oracles are applied.
 	Faults bool
@@ -98,18 +103,21 @@ type Runner struct {
 	PostPub bool
 	// StickyPattern: an injected failure hit a write of a transaction that ended without Commit
 	// (pattern of known finding F11: the writer keeps the error for the next transaction).
-	StickyPattern bool
-	Maybe         []*MState // states of failed commits whose only failure was a sync (may be durable)
-	txFaultOver   bool      // fault plan was exhausted when the running tx began
-	txInjected0   int
-	txSyncs0      int
-	openTx        *txfile.Tx
-	lastProbe     int
-	resize        *resizeInfo
+	StickyPattern                 bool
+	Maybe                         []*MState // states of failed commits whose only failure was a sync (may be durable)
+	txFaultOver                   bool      // fault plan was exhausted when the running tx began
+	txInjected0                   int
+	txSyncs0                      int
+	openTx                        *txfile.Tx
+	lastProbe                     int
+	resize                        *resizeInfo
+	hookAfterBegin, hookBeforeEnd func()
 }
 
-// StatsObserver records the most recent stats reported by the file.
+// StatsObserver records the most recent stats reported by the file. The
+// callbacks may be invoked from several goroutines.
 type StatsObserver struct {
+	mu       sync.Mutex
 	Open     txfile.FileStats
 	Last     txfile.FileStats
 	HaveLast bool
@@ -120,16 +128,24 @@ type StatsObserver struct {
 }
 
 func (o *StatsObserver) OnOpen(stats txfile.FileStats) {
+	o.mu.Lock()
 	o.Open, o.Last, o.HaveLast = stats, stats, true
 	o.Opens++
+	o.mu.Unlock()
 }
-func (o *StatsObserver) OnTxBegin(readonly bool) { o.TxBegin++ }
+func (o *StatsObserver) OnTxBegin(readonly bool) {
+	o.mu.Lock()
+	o.TxBegin++
+	o.mu.Unlock()
+}
 func (o *StatsObserver) OnTxClose(file txfile.FileStats, tx txfile.TxStats) {
+	o.mu.Lock()
 	o.TxClose++
 	o.LastTx = tx
 	if !tx.Readonly && tx.Commit {
 		o.Last = file
 	}
+	o.mu.Unlock()
 }
 
 // ErrKindName returns a short name for the error kind of err. (The generated
@@ -658,6 +674,22 @@ func (t *txRun) writable(h int, p MPage) bool {
 
 func (r *Runner) bounded() bool { return r.curMax > 0 }
 
+// RunTxHooked runs one transaction (no quiescent checks) calling afterBegin
+// once Begin has returned and beforeEnd right before the transaction is ended.
+// Used by concurrent scenarios; the caller serialises calls.
+func (r *Runner) RunTxHooked(idx int, tx *Tx, afterBegin, beforeEnd func()) (v *Violation) {
+	defer func() {
+		if x := recover(); x != nil {
+			st := debug.Stack()
+			v = violationf("panic", idx, "panic: %v at %s [%s]", x, panicSite(st), trimStack(st))
+		}
+		r.hookAfterBegin, r.hookBeforeEnd = nil, nil
+	}()
+	r.hookAfterBegin, r.hookBeforeEnd = afterBegin, beforeEnd
+	r.curItem = idx
+	return r.runTx(idx, tx)
+}
+
 func (r *Runner) runTx(idx int, tx *Tx) *Violation {
 	if tx.Stall {
 		r.stall()
@@ -677,6 +709,9 @@ func (r *Runner) runTx(idx int, tx *Tx) *Violation {
 		return violationf("begin", idx, "Begin failed: %v", err)
 	}
 	r.openTx = ftx
+	if r.hookAfterBegin != nil {
+		r.hookAfterBegin()
+	}
 	t := &txRun{r: r, idx: idx, tx: ftx, T: r.C.Clone(), local: map[int]*txPage{}, freed: map[int]MPage{}}
 	t.snap0 = r.F.VerifState()
 	r.count("tx")
@@ -695,6 +730,9 @@ func (r *Runner) runTx(idx int, tx *Tx) *Violation {
 		t.metaGrew = true
 	}
 
+	if r.hookBeforeEnd != nil {
+		r.hookBeforeEnd()
+	}
 	switch tx.End {
 	case EndCommit:
 		return t.commit()
@@ -804,7 +842,9 @@ func (t *txRun) commit() *Violation {
 		}
 		r.Maybe = nil
 		r.StickyPattern = false
-		r.LastTxID = r.F.VerifState().TxID
+		if !r.O.Concurrent {
+			r.LastTxID = r.F.VerifState().TxID
+		}
 	}
 	if err != nil {
 		// On a bounded file a commit may fail for lack of space (data, overwrite
@@ -839,6 +879,10 @@ func (t *txRun) commit() *Violation {
 	r.count("commit")
 	if r.resize != nil {
 		r.count("commit-after-resize")
+	}
+	if r.O.Concurrent {
+		r.record(Obs{Op: -1, Kind: "commit", OK: true})
+		return nil
 	}
 	s := r.F.VerifState()
 	if s.MetaTotal > t.snap0.MetaTotal {
